@@ -21,6 +21,7 @@ import (
 	"fmt"
 	"hash/crc32"
 	"io"
+	"runtime/debug"
 	"strconv"
 	"strings"
 
@@ -38,10 +39,16 @@ func must(err error) {
 	}
 }
 
+var sharedFS c14.IFS
+
+// newFS: one in-memory file system per process; every use overwrites its files (Create
+// truncates) and closes them again
 func newFS() c14.IFS {
-	fs := c14.NewMem()
-	must(fs.MkdirAll(dir, 0755))
-	return fs
+	if sharedFS == nil {
+		sharedFS = c14.NewMem()
+		must(sharedFS.MkdirAll(dir, 0755))
+	}
+	return sharedFS
 }
 
 func putFile(fs c14.IFS, name string, data []byte) {
@@ -576,12 +583,13 @@ type baseInfo struct {
 	genuine bool
 	full    session
 	pad     int
+	orig    map[string]session // sessions on the unmodified image, by read sizes
 }
 
 func baseOf(f []byte) baseInfo {
 	full := readSession(f, []int{len(f) + 1, 1})
 	ok := full.complete && verdict(f, []int{len(f)}) == "A"
-	return baseInfo{genuine: ok, full: full, pad: headerPadStart(f)}
+	return baseInfo{genuine: ok, full: full, pad: headerPadStart(f), orig: map[string]session{}}
 }
 
 // monitor for a modified image: the session either fails or hands out exactly what the
@@ -913,6 +921,23 @@ func runBG(id string, pseed uint64, n int, segSizes []int, st *vh.Stats) string 
 			st.Violation(id, fmt.Sprintf("validator: stream cut to %d of %d bytes accepted", l, len(f)))
 		}
 	}
+	// every bit of the 8 byte tail length field and a few of the magic, through the reader:
+	// accepted without a failure => must be the original bytes
+	var tbits []int
+	// (length bits 0..23 name offsets inside a file of a few MB; two higher ones, two of the magic)
+	for k := 0; k < 24; k++ {
+		tbits = append(tbits, 8*(len(f)-16)+k)
+	}
+	tbits = append(tbits, 8*(len(f)-16)+24+r.Intn(40), 8*(len(f)-16)+63, 8*(len(f)-8)+r.Intn(64), 8*(len(f)-8)+r.Intn(64))
+	for _, b := range tbits {
+		d, failed := readAll(flip(f, b), nil)
+		if !failed && !bytes.Equal(d, payload) {
+			st.Violation(id, fmt.Sprintf("corruption: tail bit %d (of the last 128) flipped: accepted without any failure but differs from the original: %d of %d bytes read back", b-8*(len(f)-16), len(d), len(payload)))
+		} else if !bytes.HasPrefix(payload, d) {
+			st.Violation(id, fmt.Sprintf("corruption: tail bit %d flipped: reader handed out altered bytes", b-8*(len(f)-16)))
+		}
+		st.Distribution["bg-tail-flips"]++
+	}
 	st.Count("bg-real-block-size")
 	return fmt.Sprintf("%s BG", id)
 }
@@ -940,6 +965,8 @@ func splitCase(line string) (id string, head []string, ops []string) {
 
 func main() {
 	a := vh.ParseArgs()
+	// the real reader / validator allocate a 2 MB block buffer per instance
+	debug.SetGCPercent(400)
 	switch a.Mode {
 	case "gen":
 		gen(a)
